@@ -746,3 +746,49 @@ V("c19-silent-forest-sparse-support-mapped", "C19", "silent", DR, DRF_DRAW, "   
 V("c19-silent-forest-count", "C19", "silent", DR, "np.random.choice(range(Y.shape[0]), 1, p=weights[i, :])[0]", "np.random.choice(len(Y), 1, p=weights[i, :])[0]", what="population given as a count")
 V("c19-forest-weights-of-other-point", "C19", "fire", DR, "np.random.choice(range(Y.shape[0]), 1, p=weights[i, :])[0]", "np.random.choice(range(Y.shape[0]), 1, p=weights[0, :])[0]", rule="FOREST.sample-rows", what="weights of the first test point for every row")
 V("c19-forest-column-weights", "C19", "fire", DR, "np.random.choice(range(Y.shape[0]), 1, p=weights[i, :])[0]", "np.random.choice(range(Y.shape[0]), 1, p=weights[:, i])[0]", rule="FOREST.sample-rows", what="column of the weight matrix", accept_inconclusive=True)
+# ANM.sample
+V("sp-c02-if-seed", "C02", "silent", AN, "        np.random.seed(random_state) if random_state is not None else None\n", "        if random_state is not None:\n            np.random.seed(random_state)\n", what="if statement for the reseed")
+V("sp-c13-if-seed", "C13", "silent", AN, "        np.random.seed(random_state) if random_state is not None else None\n", "        if random_state is not None:\n            np.random.seed(random_state)\n", what="if statement for the reseed")
+V("sp-c02-zeros-list", "C02", "silent", AN, "        X = np.zeros((n, self.p))\n", "        X = np.zeros([n, self.p])\n", what="list shape")
+V("sp-c02-zeros-kw", "C02", "silent", AN, "        X = np.zeros((n, self.p))\n", "        X = np.zeros(shape=(n, self.p), dtype=float)\n", what="keyword shape, explicit float")
+V("sp-c02-empty", "C02", "silent", AN, "        X = np.zeros((n, self.p))\n", "        X = np.empty((n, self.p))\n", what="np.empty: every column is written before it is read")
+V("sp-c02-T", "C02", "silent", AN, "                assignment = np.transpose(self.assignments[i](X[:, self.A[:, i] != 0]))\n", "                assignment = self.assignments[i](X[:, self.A[:, i] != 0]).T\n", what=".T")
+V("sp-c02-parents-var", "C02", "silent", AN, "                assignment = np.transpose(self.assignments[i](X[:, self.A[:, i] != 0]))\n", "                parents = self.A[:, i] != 0\n                assignment = np.transpose(self.assignments[i](X[:, parents]))\n", what="mask in a local")
+V("sp-c02-parents-nonzero", "C02", "silent", AN, "                assignment = np.transpose(self.assignments[i](X[:, self.A[:, i] != 0]))\n", "                assignment = np.transpose(self.assignments[i](X[:, np.flatnonzero(self.A[:, i])]))\n", what="flatnonzero index list (ascending)")
+V("sp-c02-get", "C02", "silent", AN, "            if i in do_interventions:\n                X[:, i] = do_interventions[i](n)\n", "            if i in do_interventions.keys():\n                X[:, i] = do_interventions[i](n)\n", what=".keys()")
+V("sp-c02-continue", "C02", "silent", AN, '            if i in do_interventions:\n                X[:, i] = do_interventions[i](n)\n            # Otherwise maintain dependence on parents\n            else:\n                assignment = np.transpose(self.assignments[i](X[:, self.A[:, i] != 0]))\n                # Shift-intervention: add noise from given distribution\n                if i in shift_interventions:\n                    noise = self.noise_distributions[i](n) + shift_interventions[i](n)\n                # Noise-intervention: sample noise from given distribution\n                elif i in noise_interventions:\n                    noise = noise_interventions[i](n)\n                # No intervention: sample noise from original distribution\n                else:\n                    noise = self.noise_distributions[i](n)\n                X[:, i] = assignment + noise\n', '            if i in do_interventions:\n                X[:, i] = do_interventions[i](n)\n                continue\n            assignment = np.transpose(self.assignments[i](X[:, self.A[:, i] != 0]))\n            if i in shift_interventions:\n                noise = self.noise_distributions[i](n) + shift_interventions[i](n)\n            elif i in noise_interventions:\n                noise = noise_interventions[i](n)\n            else:\n                noise = self.noise_distributions[i](n)\n            X[:, i] = assignment + noise\n', what="continue instead of else")
+# ND.sample
+V("sp-c04-if-seed", "C04", "silent", ND, "        np.random.seed(random_state) if random_state is not None else None\n        return np.random.multivariate_normal(self.mean, self.covariance, size=n)", "        if random_state is not None:\n            np.random.seed(random_state)\n        return np.random.multivariate_normal(self.mean, self.covariance, size=n)", what="if statement")
+V("sp-c04-kw", "C04", "silent", ND, "        return np.random.multivariate_normal(self.mean, self.covariance, size=n)", "        return np.random.multivariate_normal(mean=self.mean, cov=self.covariance, size=n)", what="keywords")
+V("sp-c04-positional", "C04", "silent", ND, "        return np.random.multivariate_normal(self.mean, self.covariance, size=n)", "        return np.random.multivariate_normal(self.mean, self.covariance, n)", what="positional size")
+V("sp-c04-local", "C04", "silent", ND, "        return np.random.multivariate_normal(self.mean, self.covariance, size=n)", "        sample = np.random.multivariate_normal(self.mean, self.covariance, size=n)\n        return sample", what="local variable")
+# regress / mse
+V("sp-c06-inv", "C06", "silent", ND, "            coefs[Xs] = np.linalg.solve(cov_xs, cov_y_xs)\n", "            coefs[Xs] = np.linalg.inv(cov_xs) @ cov_y_xs\n", what="inverse times vector")
+V("sp-c06-ix", "C06", "silent", ND, "            cov_xs = self.covariance[:, Xs][Xs, :]  #", "            cov_xs = self.covariance[np.ix_(Xs, Xs)]  #", what="np.ix_")
+V("sp-c06-rows-first", "C06", "silent", ND, "            cov_xs = self.covariance[:, Xs][Xs, :]  #", "            cov_xs = self.covariance[Xs, :][:, Xs]  #", what="rows first")
+V("sp-c06-dot", "C06", "silent", ND, "        intercept = self.mean[y] - coefs @ self.mean\n", "        intercept = self.mean[y] - np.dot(coefs, self.mean)\n", what="np.dot")
+V("sp-c06-mse-quadratic", "C06", "silent", ND, "        mse = var_y + coefs_xs @ cov @ coefs_xs.T - 2 * cov[y, :] @ coefs_xs.T\n", "        mse = var_y - 2 * cov[y, :] @ coefs_xs + coefs_xs @ cov @ coefs_xs\n", what="terms reordered, 1-D transposes dropped")
+V("sp-c06-zeros-like", "C06", "silent", ND, "        coefs = np.zeros(self.p)\n", "        coefs = np.zeros_like(self.mean, dtype=float)\n", what="zeros_like(mean)")
+# generators
+V("sp-c12-randint-endpoint", "C12", "silent", GE, "        sizes = rng.integers(size[0], size[1] + 1, K)\n", "        sizes = rng.integers(size[0], size[1], K, endpoint=True)\n", what="endpoint=True")
+V("sp-c12-minmax-vars", "C12", "silent", GE, "        sizes = rng.integers(size[0], size[1] + 1, K)\n", "        sizes = rng.integers(min_size, max_size + 1, size=K)\n", what="unpacked names")
+V("sp-c12-nested-if", "C12", "silent", GE, "    if not replace:\n        if max_size * K > p:\n", "    if not replace and max_size * K > p:\n        if True:\n", what="conjunction for nested ifs")
+V("sp-c12-range-K", "C12", "silent", GE, "        for i, k in enumerate(range(K)):\n            intervention = list(rng.choice(targets, size=sizes[i], replace=False))\n", "        for i in range(K):\n            intervention = list(rng.choice(targets, size=sizes[i], replace=False))\n", what="range(K)")
+V("sp-c11-random-threshold", "C11", "silent", GE, "rng.uniform(size=(p, p))", "rng.random((p, p))", what="rng.random")
+V("sp-c11-argsort-kw", "C11", "silent", GE, "        return (W[permutation, :][:, permutation], np.argsort(permutation))\n    else:\n        return W[permutation, :][:, permutation]\n\n\ndef dag_full", "        return (W[permutation, :][:, permutation], np.argsort(a=permutation))\n    else:\n        return W[permutation, :][:, permutation]\n\n\ndef dag_full", what="keyword to argsort")
+V("sp-c11-ix", "C11", "silent", GE, "        return (W[permutation, :][:, permutation], np.argsort(permutation))\n    else:\n        return W[permutation, :][:, permutation]\n\n\ndef dag_full", "        return (W[np.ix_(permutation, permutation)], np.argsort(permutation))\n    else:\n        return W[np.ix_(permutation, permutation)]\n\n\ndef dag_full", what="np.ix_")
+# utils
+V("sp-c18-bool-pattern", "C18", "silent", UT, "def remove_edges(A, no_edges, random_state=42):\n    \"\"\"Remove `no_edges` at random from A.\"\"\"\n    A = A.astype(bool).astype(int)\n", "def remove_edges(A, no_edges, random_state=42):\n    \"\"\"Remove `no_edges` at random from A.\"\"\"\n    A = (A != 0).astype(int)\n", what="(A != 0) pattern")
+V("sp-c18-int-division", "C18", "silent", UT, "    can_add = int(p * (p - 1) / 2 - A.sum())\n", "    can_add = p * (p - 1) // 2 - int(A.sum())\n", what="integer division")
+V("sp-c18-tuple-index", "C18", "silent", UT, "        next_supergraph[edges[i]] = 1\n", "        fro_i, to_i = edges[i]\n        next_supergraph[fro_i, to_i] = 1\n", what="unpacked index")
+V("sp-c16-count-nonzero", "C16", "silent", UT, "    no_edges = np.sum(subgraph != 0)\n    n = len(S)\n", "    no_edges = np.count_nonzero(subgraph)\n    n = len(S)\n", what="count_nonzero")
+V("sp-c16-moral-symmetric-store", "C16", "silent", UT, "        moral[i, j] = 1\n        moral[j, i] = 1\n", "        moral[i, j] = moral[j, i] = 1\n", what="chained assignment")
+V("sp-c16-vs-minmax", "C16", "silent", UT, "                vstruct = (i, c, j) if i < j else (j, c, i)\n", "                vstruct = (min(i, j), c, max(i, j))\n", what="min / max")
+V("sp-c15-pa-nonzero", "C15", "silent", UT, "    return set(np.where(np.logical_and(A[:, i] != 0, A[i, :] == 0))[0])", "    return set(np.where((A[:, i] != 0) & (A[i, :] == 0))[0])", what="& for logical_and")
+V("sp-c15-pa-flatnonzero", "C15", "silent", UT, "    return set(np.where(np.logical_and(A[:, i] != 0, A[i, :] == 0))[0])", "    return set(np.flatnonzero(np.logical_and(A[:, i] != 0, A[i, :] == 0)))", what="flatnonzero")
+V("sp-c20-sqrt", "C20", "silent", NO, "return lambda n: np.random.normal(mean, var**0.5, n)", "return lambda n: np.random.normal(mean, np.sqrt(var), n)", what="np.sqrt")
+V("sp-c20-size-kw", "C20", "silent", NO, "return lambda n: np.random.uniform(lo, hi, n)", "return lambda n: np.random.uniform(lo, hi, size=n)", what="size keyword")
+V("sp-c20-zeros-float", "C20", "silent", NO, "return lambda n: np.zeros(n)", "return lambda n: np.zeros(n, dtype=float)", what="explicit dtype")
+V("sp-c19-boot-len", "C19", "silent", SE, "import numpy as np\n", "import numpy as np\n_SEMI_VERSION = 1\n", what="module constant")
+V("c08-extension-sink-by-weight-sum", "C08", "fire", UT, "            sink = len(ch(i, P)) == 0\n", "            sink = only_directed(P)[i, :].sum() == 0\n", rule="PAT.value-sensitive", what="a node whose outgoing weights cancel is taken for a sink")
+V("c08-silent-extension-sink-by-count", "C08", "silent", UT, "            sink = len(ch(i, P)) == 0\n", "            sink = not ch(i, P)\n", what="emptiness of the child set")
